@@ -25,6 +25,11 @@ def catalogue(tier: str) -> list[dict]:
     for order in (2, 4, 8, 16):
         for gray in (True, False):
             out.append({"scheme": "dpsk", "order": order, "gray": gray})
+    # the other documented spellings of the same DPSK configuration: the `gray_coded=` alias and `bits_per_symbol=`
+    for order in (4, 8, 16):
+        for gray in (True, False):
+            out.append({"scheme": "dpsk", "order": order, "gray": gray, "spelling": "gray_coded"})
+            out.append({"scheme": "dpsk", "order": order, "gray": gray, "spelling": "bits_per_symbol"})
     out += [{"scheme": "dbpsk"}, {"scheme": "dqpsk"}]
     for gray in (True, False):
         out.append({"scheme": "pi4qpsk", "gray": gray})
@@ -51,6 +56,8 @@ def cfg(s: dict) -> str:
         parts.append("norm" if s["normalize"] else "unnorm")
     if s.get("complex_output") is False:
         parts.append("real_output")
+    if s.get("spelling"):
+        parts.append(f"spelled:{s['spelling']}")
     parts.append(s.get("via", "direct"))
     return ",".join(parts)
 
@@ -98,6 +105,10 @@ def _kwargs(s: dict) -> tuple[dict, dict]:
         return kw, dict(kw)
     if sc == "dpsk":
         kw = {"order": s["order"], "gray_coding": s["gray"]}
+        if s.get("spelling") == "gray_coded":
+            kw = {"order": s["order"], "gray_coded": s["gray"]}
+        elif s.get("spelling") == "bits_per_symbol":
+            kw = {"bits_per_symbol": s["order"].bit_length() - 1, "gray_coding": s["gray"]}
         return kw, dict(kw)
     if sc == "pi4qpsk":
         return {"gray_coded": s["gray"]}, {"gray_coded": s["gray"]}
